@@ -984,6 +984,27 @@ Lemma hop_ok_real :
 Proof. vm_compute. reflexivity. Qed.
 
 (* ---------- status first, trailers last ---------- *)
+(* a field list without :status *)
+Definition nostat (fl : list (bytes * bytes)) : bool := negb (mem_bytes s_status (map fst fl)).
+Lemma nostat_app a b : nostat (a ++ b) = nostat a && nostat b.
+Proof. unfold nostat, mem_bytes. rewrite map_app, existsb_app, negb_orb. reflexivity. Qed.
+Lemma enc_key_nostat h k : nostat (enc_key h k) = true.
+Proof.
+  unfold enc_key. destruct (valid_name (to_lower k)) eqn:Ev; [|reflexivity].
+  assert (Hne : bytes_eqb s_status (to_lower k) = false).
+  { destruct (bytes_eqb s_status (to_lower k)) eqn:E; [|reflexivity]. apply bytes_eqb_eq in E. rewrite <- E in Ev.
+    vm_compute in Ev. discriminate. }
+  induction (hget h k) as [|v r IH]; [reflexivity|]. cbn [flat_map]. rewrite nostat_app, IH, andb_true_r.
+  match goal with |- context [if ?c then _ else _] => destruct c end; [|reflexivity].
+  unfold nostat, mem_bytes. cbn [map fst existsb]. rewrite Hne. reflexivity.
+Qed.
+Lemma encode_nostat h keys : nostat (encode_headers h keys) = true.
+Proof.
+  unfold encode_headers. induction keys as [|k r IH]; [reflexivity|]. cbn [flat_map].
+  rewrite nostat_app, enc_key_nostat, IH. reflexivity.
+Qed.
+Definition frame_nostat (f : frame) : Prop := match f with FH _ fl => nostat fl = true | FD _ _ => True end.
+
 Definition all_FD (l : list frame) : Prop := forall f, In f l -> is_FH f = false.
 Lemma all_FD_nil : all_FD []. Proof. intros f []. Qed.
 Lemma all_FD_app a b : all_FD a -> all_FD b -> all_FD (a ++ b).
@@ -999,7 +1020,8 @@ Qed.
 Definition wq (S : Z) (s : rws) : Prop := wroteH s = true /\ status s = S.
 (* frames so far: nothing before the response HEADERS; afterwards HEADERS(:status S ...) followed by DATA only *)
 Definition ainv (S : Z) (s : rws) (acc : list frame) : Prop :=
-  (if sentH s then exists es fl rest, acc = FH es (status_field S ++ fl) :: rest /\ all_FD rest else acc = [])
+  (if sentH s then exists es fl rest, acc = FH es (status_field S ++ fl) :: rest /\ all_FD rest /\ nostat fl = true
+   else acc = [])
   /\ (berr s = true -> sentH s = true).
 
 Lemma wh_wq e s S : status (write_header e 200 s) = S -> wq S (write_header e 200 s).
@@ -1009,11 +1031,17 @@ Proof. intros [A _]. unfold write_header. rewrite A. reflexivity. Qed.
 
 Lemma first_headers_status e done p s f s1 es :
   first_headers e done p s = (f, s1, es) ->
-  (exists fl, f = FH es (status_field (status s) ++ fl)) /\ wroteH s1 = wroteH s /\ status s1 = status s.
+  (exists fl, f = FH es (status_field (status s) ++ fl) /\ nostat fl = true)
+  /\ wroteH s1 = wroteH s /\ status s1 = status s.
 Proof.
   unfold first_headers. cbv zeta.
   match goal with |- (match ?X with pair _ _ => _ end) = _ -> _ => destruct X as [[snp scl] clen1] end.
-  intro H. inversion H; subst. clear H. simpl. split; [eexists; reflexivity|split; reflexivity].
+  intro H. inversion H; subst. clear H. cbn [wroteH status]. split; [|split; reflexivity].
+  eexists. split; [reflexivity|].
+  rewrite !nostat_app, encode_nostat. cbn [andb].
+  repeat match goal with |- context [if ?c then _ else _] => destruct c end;
+    repeat match goal with |- context [match ?c with [] => _ | _ => _ end] => destruct c end;
+    vm_compute; reflexivity.
 Qed.
 
 Lemma body_frames_wq e done p s1 fr s2 :
@@ -1033,17 +1061,21 @@ Proof.
 Qed.
 
 Lemma body_frames_last e p s1 fr s2 :
-  body_frames e true p s1 = (fr, s2) -> exists pre l, fr = pre ++ [l] /\ all_FD pre.
+  body_frames e true p s1 = (fr, s2) -> exists pre l, fr = pre ++ [l] /\ all_FD pre /\ frame_nostat l.
 Proof.
   unfold body_frames.
   destruct (promote (hh s1) (trailers s1)) as [h2 tr2].
-  remember (encode_trailers (e_hop e) h2 tr2) as enc eqn:Eenc. clear Eenc.
+  remember (encode_trailers (e_hop e) h2 tr2) as enc eqn:Eenc.
+  assert (Hen : nostat enc = true) by (subst enc; apply encode_nostat).
+  clear Eenc.
   destruct tr2 as [|t tr2]; cbn [andb negb].
-  - rewrite orb_true_r. intro H. inversion H; subst. exists [], (FD true p). split; [reflexivity|apply all_FD_nil].
+  - rewrite orb_true_r. intro H. inversion H; subst. exists [], (FD true p).
+    split; [reflexivity|]. split; [apply all_FD_nil|exact I].
   - rewrite orb_false_r.
     assert (Hp : all_FD (if 0 <? blen p then [FD false p] else []))
       by (destruct (0 <? blen p); [apply all_FD_one|apply all_FD_nil]).
-    destruct enc as [|fl0 fl]; intro H; inversion H; subst; eexists _, _; (split; [reflexivity|exact Hp]).
+    destruct enc as [|fl0 fl]; intro H; inversion H; subst; eexists _, _;
+      (split; [reflexivity|]; split; [exact Hp|]); [exact I|exact Hen].
 Qed.
 
 (* write_chunk while the handler runs *)
@@ -1057,11 +1089,11 @@ Proof.
   revert Hw. unfold write_chunk.
   rewrite <- (wh_sentH e 200 s) in Ha. set (s0 := write_header e 200 s) in *.
   destruct (sentH s0) eqn:Es0.
-  - cbn iota beta. destruct Ha as [es [fl [rest [Ea Hr]]]].
+  - cbn iota beta. destruct Ha as [es [fl [rest [Ea [Hr Hn]]]]].
     assert (G : forall fr2 s2, all_FD fr2 -> wroteH s2 = wroteH s0 -> status s2 = status s0 -> sentH s2 = true ->
                 berr s2 = berr s -> ainv S s2 (acc ++ fr2) /\ wq S s2).
     { intros fr2 s2 F W1 W2 W3 W4. split; [split|].
-      - rewrite W3. exists es, fl, (rest ++ fr2). subst acc. split; [reflexivity|apply all_FD_app; assumption].
+      - rewrite W3. exists es, fl, (rest ++ fr2). subst acc. split; [reflexivity|]. split; [apply all_FD_app; assumption|exact Hn].
       - intros _. exact W3.
       - destruct Hq as [Q1 Q2]. split; [rewrite W1; exact Q1|rewrite W2; exact Q2]. }
     destruct (e_head e); [intro H; inversion H; subst; apply G; try reflexivity; [apply all_FD_nil|exact Es0|apply wh_berr]|].
@@ -1072,12 +1104,12 @@ Proof.
     apply G; [apply (body_frames_FD _ _ _ _ _ Eb)|exact W1|exact W2|exact Hsent|exact Hberr].
   - subst acc.
     destruct (first_headers e false p s0) as [[f s1] es] eqn:Ef.
-    destruct (first_headers_status _ _ _ _ _ _ _ Ef) as [[fl Hf] [W1 W2]].
+    destruct (first_headers_status _ _ _ _ _ _ _ Ef) as [[fl [Hf Hn]] [W1 W2]].
     rewrite HS in Hf. subst f.
     assert (G : forall fr2 s2, all_FD fr2 -> wroteH s2 = wroteH s1 -> status s2 = status s1 -> sentH s2 = true ->
                 ainv S s2 ([] ++ FH es (status_field S ++ fl) :: fr2) /\ wq S s2).
     { intros fr2 s2 F V1 V2 V3. split; [split|].
-      - rewrite V3. exists es, fl, fr2. split; [reflexivity|exact F].
+      - rewrite V3. exists es, fl, fr2. split; [reflexivity|]. split; [exact F|exact Hn].
       - intros _. exact V3.
       - destruct Hq as [Q1 Q2]. split; [rewrite V1, W1; exact Q1|rewrite V2, W2; exact Q2]. }
     destruct (first_headers_shape _ _ _ _ _ _ _ Ef) as [_ [V3 _]].
@@ -1180,37 +1212,54 @@ Proof.
     rewrite app_assoc. eapply IH; eassumption.
 Qed.
 
+Definition rest_ok (l : list frame) : Prop := forall f, In f l -> frame_nostat f.
+Lemma all_FD_rest_ok l : all_FD l -> rest_ok l.
+Proof. intros H f Hf. specialize (H f Hf). destruct f; [discriminate|exact I]. Qed.
+Lemma rest_ok_app a b : rest_ok a -> rest_ok b -> rest_ok (a ++ b).
+Proof. intros Ha Hb f Hf. apply in_app_or in Hf. destruct Hf; auto. Qed.
+Lemma rest_ok_one f : frame_nostat f -> rest_ok [f].
+Proof. intros H g [<-|[]]. exact H. Qed.
+
 Lemma wc_done_shape e p s acc fr n s' S :
   status (write_header e 200 s) = S -> ainv S s acc -> write_chunk e true p s = (fr, n, s') ->
-  exists es fl rest, acc ++ fr = FH es (status_field S ++ fl) :: rest /\ all_FD (removelast rest).
+  exists es fl rest, acc ++ fr = FH es (status_field S ++ fl) :: rest /\ all_FD (removelast rest)
+                     /\ nostat fl = true /\ rest_ok rest.
 Proof.
   intros HS [Ha _]. unfold write_chunk.
   rewrite <- (wh_sentH e 200 s) in Ha. set (s0 := write_header e 200 s) in *.
   destruct (sentH s0) eqn:Es0.
-  - cbn iota beta. destruct Ha as [es [fl [rest [Ea Hr]]]]. subst acc.
+  - cbn iota beta. destruct Ha as [es [fl [rest [Ea [Hr Hn]]]]]. subst acc.
     destruct (e_head e).
-    { intro H; inversion H; subst fr. exists es, fl, rest. rewrite app_nil_r. split; [reflexivity|apply all_FD_removelast, Hr]. }
+    { intro H; inversion H; subst fr. exists es, fl, rest. rewrite app_nil_r. split; [reflexivity|].
+      split; [apply all_FD_removelast, Hr|]. split; [exact Hn|apply all_FD_rest_ok, Hr]. }
     rewrite andb_false_r.
     destruct (body_frames e true p s0) as [fr2 s2] eqn:Eb. intro H; inversion H; subst fr.
-    destruct (body_frames_last _ _ _ _ _ Eb) as [pre [l [E Hp]]].
+    destruct (body_frames_last _ _ _ _ _ Eb) as [pre [l [E [Hp Hl]]]].
     exists es, fl, (rest ++ fr2). split; [reflexivity|].
-    rewrite E, app_assoc, removelast_last. apply all_FD_app; assumption.
+    split; [rewrite E, app_assoc, removelast_last; apply all_FD_app; assumption|]. split; [exact Hn|].
+    rewrite E. apply rest_ok_app; [apply all_FD_rest_ok, Hr|].
+    apply rest_ok_app; [apply all_FD_rest_ok, Hp|apply rest_ok_one, Hl].
   - subst acc.
     destruct (first_headers e true p s0) as [[f s1] es] eqn:Ef.
-    destruct (first_headers_status _ _ _ _ _ _ _ Ef) as [[fl Hf] _]. rewrite HS in Hf. subst f.
-    destruct es; [intro H; inversion H; subst fr; exists true, fl, []; split; [reflexivity|apply all_FD_nil]|].
-    destruct (e_head e); [intro H; inversion H; subst fr; exists false, fl, []; split; [reflexivity|apply all_FD_nil]|].
+    destruct (first_headers_status _ _ _ _ _ _ _ Ef) as [[fl [Hf Hn]] _]. rewrite HS in Hf. subst f.
+    assert (Hnil : all_FD (removelast []) /\ nostat fl = true /\ rest_ok [])
+      by (split; [apply all_FD_nil|split; [exact Hn|intros f []]]).
+    destruct es; [intro H; inversion H; subst fr; exists true, fl, []; split; [reflexivity|exact Hnil]|].
+    destruct (e_head e); [intro H; inversion H; subst fr; exists false, fl, []; split; [reflexivity|exact Hnil]|].
     rewrite andb_false_r.
     destruct (body_frames e true p s1) as [fr2 s2] eqn:Eb. intro H; inversion H; subst fr.
-    destruct (body_frames_last _ _ _ _ _ Eb) as [pre [l [E Hp]]].
-    exists false, fl, fr2. split; [reflexivity|]. rewrite E, removelast_last. exact Hp.
+    destruct (body_frames_last _ _ _ _ _ Eb) as [pre [l [E [Hp Hl]]]].
+    exists false, fl, fr2. split; [reflexivity|]. split; [rewrite E, removelast_last; exact Hp|]. split; [exact Hn|].
+    rewrite E. apply rest_ok_app; [apply all_FD_rest_ok, Hp|apply rest_ok_one, Hl].
 Qed.
 
-(* The first frame is the response HEADERS and its first field is :status = the handler's status; every further
-   frame except possibly the last one is DATA (so trailers, if any, are the last frame, after the whole body). *)
+(* The first frame is the response HEADERS and its first field is :status = the handler's status; no other field of
+   any HEADERS frame is named :status; every further frame except possibly the last one is DATA (so trailers, if any,
+   are the last frame, after the whole body). *)
 Theorem status_first_trailers_last e ops :
   exists es fl rest,
-    frames_of e ops = FH es (status_field (spec_status ops) ++ fl) :: rest /\ all_FD (removelast rest).
+    frames_of e ops = FH es (status_field (spec_status ops) ++ fl) :: rest /\ all_FD (removelast rest)
+    /\ nostat fl = true /\ rest_ok rest.
 Proof.
   unfold frames_of, run_handler.
   destruct (run_ops e ops rws0) as [[fr1 s1] res1] eqn:Er.
@@ -1227,8 +1276,181 @@ Proof.
     apply (wc_done_shape _ _ _ _ _ _ _ _ HS Ha1 Ew).
   - unfold bw_flush in Ef. rewrite Ebuf in Ef. destruct (berr s1) eqn:Eb.
     + inversion Ef; subst fr2 s2. rewrite app_nil_r. destruct Ha1 as [A B]. rewrite (B Eb) in A.
-      destruct A as [es [fl [rest [E Hr]]]]. exists es, fl, rest. split; [exact E|apply all_FD_removelast, Hr].
+      destruct A as [es [fl [rest [E [Hr Hn]]]]]. exists es, fl, rest. split; [exact E|].
+      split; [apply all_FD_removelast, Hr|]. split; [exact Hn|apply all_FD_rest_ok, Hr].
     + destruct (write_chunk e true (z0 :: l0) s1) as [[x1 x2] x3] eqn:Ew.
       assert (fr2 = x1) by (destruct (x2 <? blen (z0 :: l0)); inversion Ef; reflexivity). subst fr2.
       apply (wc_done_shape _ _ _ _ _ _ _ _ HS Ha1 Ew).
 Qed.
+
+(* ---------- body-less statuses: every Write is refused ---------- *)
+Definition all_refused (res : list Z) : bool := forallb (fun r => negb (r =? 0)) res.
+Lemma accepted_refused ws : forall res, all_refused res = true -> accepted ws res = [].
+Proof.
+  induction ws as [|w ws IH]; intros [|r res] H; simpl; try reflexivity.
+  simpl in H. apply andb_true_iff in H. destruct H as [H1 H2]. apply negb_true_iff in H1. rewrite H1. simpl.
+  apply IH, H2.
+Qed.
+
+Lemma step_bodyless e o r s fr s' res S :
+  sinv S s (o :: r) -> body_allowed S = false -> step e o s = (fr, s', res) -> all_refused res = true.
+Proof.
+  intros Hs Hb. destruct o; cbn [step]; cbv zeta; try (intro H; inversion H; reflexivity).
+  - assert (HS : status (write_header e 200 s) = S).
+    { unfold sinv, write_header in *. destruct (wroteH s); [exact Hs|apply Hs]. }
+    rewrite HS, Hb. cbn [negb]. intro H; inversion H; reflexivity.
+  - destruct (do_flush e false s) as [fr1 s1]. intro H; inversion H; reflexivity.
+Qed.
+
+Lemma run_ops_bodyless e S : body_allowed S = false -> forall ops s acc fr s' res,
+  sinv S s ops -> ainv S s acc -> run_ops e ops s = (fr, s', res) -> all_refused res = true.
+Proof.
+  intro Hb. induction ops as [|o r IH]; intros s acc fr s' res Hs Ha; simpl.
+  - intro H; inversion H; reflexivity.
+  - destruct (step e o s) as [[fr1 s1] res1] eqn:Es.
+    destruct (run_ops e r s1) as [[fr2 s2] res2] eqn:Er. intro H; inversion H; subst.
+    destruct (step_shape _ _ _ _ _ _ _ _ _ Hs Ha Es) as [Hs1 Ha1].
+    unfold all_refused. rewrite forallb_app. apply andb_true_iff. split.
+    + apply (step_bodyless _ _ _ _ _ _ _ _ Hs Hb Es).
+    + apply (IH _ _ _ _ _ Hs1 Ha1 Er).
+Qed.
+
+Theorem bodyless_refused e ops fr res s :
+  run_handler e ops = (fr, res, s) -> body_allowed (spec_status ops) = false -> all_refused res = true.
+Proof.
+  unfold run_handler.
+  destruct (run_ops e ops rws0) as [[fr1 s1] res1] eqn:Er.
+  destruct (do_flush e true s1) as [fr2 s2]. intro H; inversion H; subst. intro Hb.
+  assert (Hs0 : sinv (spec_status ops) rws0 ops) by (unfold sinv; simpl; repeat split; reflexivity).
+  assert (Ha0 : ainv (spec_status ops) rws0 []) by (split; simpl; [reflexivity|discriminate]).
+  apply (run_ops_bodyless e _ Hb ops rws0 [] fr1 s1 res Hs0 Ha0 Er).
+Qed.
+
+(* ---------- the central statement: prop_C38 holds of the model's observation ---------- *)
+Definition pjf (fl : list (bytes * bytes)) : list (bytes * bytes) :=
+  map (fun kv => (fst kv, project (fst kv) (snd kv))) fl.
+Definition pj (f : frame) : frame := match f with FH e fl => FH e (pjf fl) | FD e d => FD e d end.
+
+Lemma pjf_names fl : map fst (pjf fl) = map fst fl.
+Proof. unfold pjf. rewrite map_map. reflexivity. Qed.
+Lemma pj_end f : f_end (pj f) = f_end f. Proof. destruct f; reflexivity. Qed.
+Lemma pj_data f : f_data (pj f) = f_data f. Proof. destruct f; reflexivity. Qed.
+Lemma pj_isFH f : is_FH (pj f) = is_FH f. Proof. destruct f; reflexivity. Qed.
+Lemma forallb_map {A B} (f : B -> bool) (g : A -> B) l : forallb f (map g l) = forallb (fun x => f (g x)) l.
+Proof. induction l as [|x r IH]; [reflexivity|]. simpl. rewrite IH. reflexivity. Qed.
+Lemma forallb_ext {A} (f g : A -> bool) l : (forall x, f x = g x) -> forallb f l = forallb g l.
+Proof. intro H. induction l as [|x r IH]; [reflexivity|]. simpl. rewrite H, IH. reflexivity. Qed.
+Lemma fields_ok_pjf fl : fields_ok (pjf fl) = fields_ok fl.
+Proof. unfold fields_ok, pjf. rewrite forallb_map. reflexivity. Qed.
+
+Lemma dec_enc_fields fl :
+  all_some (map dec_field (map (fun kv => VL [VB (fst kv); VB (project (fst kv) (snd kv))]) fl)) = Some (pjf fl).
+Proof. induction fl as [|kv r IH]; [reflexivity|]. simpl. simpl in IH. rewrite IH. reflexivity. Qed.
+Lemma dec_enc_frame f : dec_frame (enc_frame f) = Some (pj f).
+Proof.
+  destruct f as [e fl|e d]; destruct e; unfold enc_frame, vbool, VT, VF, dec_frame; rewrite ?dec_enc_fields; reflexivity.
+Qed.
+Lemma dec_enc_frames fr : all_some (map dec_frame (map enc_frame fr)) = Some (map pj fr).
+Proof. induction fr as [|f r IH]; [reflexivity|]. simpl. rewrite dec_enc_frame, IH. reflexivity. Qed.
+Lemma as_LZ_vLZ l : as_LZ (vLZ l) = Some l.
+Proof. unfold as_LZ, vLZ. induction l as [|x r IH]; [reflexivity|]. simpl. simpl in IH. rewrite IH. reflexivity. Qed.
+
+Lemma removelast_map {A B} (f : A -> B) l : removelast (map f l) = map f (removelast l).
+Proof. induction l as [|x r IH]; [reflexivity|]. simpl. destruct r; [reflexivity|]. simpl in *. rewrite IH. reflexivity. Qed.
+
+Lemma count_end_pj l : count_end (map pj l) = count_end l.
+Proof.
+  unfold count_end. induction l as [|f r IH]; [reflexivity|]. simpl. rewrite pj_end. destruct (f_end f); simpl; rewrite IH; reflexivity.
+Qed.
+Lemma ends_once_count fr : ends_once fr -> count_end fr = 1%nat /\ f_end (last fr (FD false [])) = true.
+Proof.
+  intros [pre [l [E [Hp Hl]]]]. subst fr. split.
+  - unfold count_end. rewrite filter_app. simpl. rewrite Hl.
+    assert (Hn : filter f_end pre = []).
+    { clear -Hp. induction pre as [|f r IH]; [reflexivity|]. simpl. rewrite (Hp f (or_introl eq_refl)).
+      apply IH. intros g Hg. apply Hp. right. exact Hg. }
+    rewrite Hn. reflexivity.
+  - rewrite last_last. exact Hl.
+Qed.
+
+Lemma spec_status_range ops : forallb op_ok ops = true -> 100 <= spec_status ops <= 999.
+Proof.
+  induction ops as [|o r IH]; simpl; [lia|]. intro H. apply andb_true_iff in H. destruct H as [H1 H2].
+  destruct o; try (apply IH; exact H2); try lia.
+  simpl in H1. apply andb_true_iff in H1. destruct H1 as [A B]. apply Z.leb_le in A. apply Z.leb_le in B. lia.
+Qed.
+
+Lemma project_status v : project s_status v = v.
+Proof. reflexivity. Qed.
+
+Lemma last_map_pj l d : last (map pj l) (pj d) = pj (last l d).
+Proof. induction l as [|x r IH]; [reflexivity|]. simpl. destruct r; [reflexivity|]. exact IH. Qed.
+
+Lemma stream_ok_pj S body fr : stream_ok S body fr = true -> stream_ok S body (map pj fr) = true.
+Proof.
+  destruct fr as [|f rest]; [discriminate|]. destruct f as [e0 fl0|]; [|discriminate].
+  destruct fl0 as [|[k0 v0] fl0]; [discriminate|].
+  intro H. cbn [stream_ok] in H.
+  repeat (apply andb_true_iff in H; let H' := fresh "C" in destruct H as [H H']).
+  rename H into Cfirst.
+  assert (Ek : k0 = s_status) by (apply bytes_eqb_eq; exact Cfirst). subst k0.
+  cbn [map pj pjf fst snd stream_ok]. rewrite project_status.
+  change (map (fun kv : bytes * bytes => (fst kv, project (fst kv) (snd kv))) fl0) with (pjf fl0).
+  rewrite pjf_names.
+  change (FH e0 ((s_status, v0) :: pjf fl0) :: map pj rest) with (map pj (FH e0 ((s_status, v0) :: fl0) :: rest)).
+  rewrite count_end_pj. change (FD false []) with (pj (FD false [])). rewrite last_map_pj, pj_end.
+  rewrite removelast_map, !forallb_map, map_map.
+  pose (sp := andb_true_iff).
+  apply sp; split; [apply sp; split; [apply sp; split; [apply sp; split; [apply sp; split; [apply sp; split; [apply sp; split; [apply sp; split|]|]|]|]|]|]|]; try assumption.
+  - erewrite forallb_ext; [exact C4|]. intros [e1 fl1|e1 d1]; simpl; [rewrite pjf_names|]; reflexivity.
+  - erewrite forallb_ext; [exact C1|]. intros [e1 fl1|e1 d1]; simpl; [rewrite fields_ok_pjf|]; reflexivity.
+  - erewrite map_ext; [exact C0|]. intros f. apply pj_data.
+  - erewrite forallb_ext; [exact C|]. intros f. rewrite pj_isFH. reflexivity.
+Qed.
+
+Theorem prop_C38_central i : wf_C38 i = true -> kf_C38 i = 0 -> prop_C38 i (run_C38 i) = true.
+Proof.
+  intros Hwf _. unfold wf_C38 in Hwf. unfold prop_C38, run_C38.
+  destruct (dec_input i) as [[e ops]|] eqn:Hd; [|discriminate].
+  apply andb_true_iff in Hwf. destruct Hwf as [Hhop Hops].
+  destruct (run_handler e ops) as [[fr res] s] eqn:Hr.
+  rewrite dec_enc_frames, as_LZ_vLZ. unfold prop_frames.
+  destruct (body_exact _ _ _ _ _ Hr) as [Hlen Hdata].
+  rewrite Hlen, Nat.eqb_refl. cbn [andb].
+  apply stream_ok_pj.
+  pose proof (spec_status_range ops Hops) as HS.
+  assert (Hfr : frames_of e ops = fr) by (unfold frames_of; rewrite Hr; reflexivity).
+  destruct (status_first_trailers_last e ops) as [es [fl [rest [E [Hfd [Hn Hro]]]]]]. rewrite Hfr in E.
+  pose proof (end_stream_exactly_once_and_last e ops) as Hend. rewrite Hfr in Hend.
+  pose proof (connection_specific_removed e ops Hhop) as Hcs. rewrite Hfr in Hcs.
+  assert (Hbody : data_of fr = spec_body e ops res).
+  { unfold spec_body. rewrite Hdata. destruct (e_head e); [reflexivity|]. cbn [orb].
+    destruct (body_allowed (spec_status ops)) eqn:Eb; [reflexivity|]. cbn [negb].
+    apply accepted_refused. apply (bodyless_refused _ _ _ _ _ Hr Eb). }
+  destruct (ends_once_count _ Hend) as [Hc Hl].
+  unfold status_field in E. destruct (spec_status ops =? 0) eqn:E0; [apply Z.eqb_eq in E0; lia|].
+  cbn [app] in E. rewrite E in *. cbn [stream_ok].
+  pose (sp := andb_true_iff).
+  apply sp; split; [apply sp; split; [apply sp; split; [apply sp; split; [apply sp; split; [apply sp; split; [apply sp; split; [apply sp; split|]|]|]|]|]|]|].
+  - apply bytes_eqb_eq. reflexivity.
+  - apply bytes_eqb_eq. reflexivity.
+  - exact Hn.
+  - apply forallb_forall. intros f Hf. specialize (Hro f Hf). destruct f; [exact Hro|reflexivity].
+  - rewrite Hc. reflexivity.
+  - exact Hl.
+  - apply forallb_forall. intros f Hf. destruct f as [e1 fl1|]; [|reflexivity]. apply (Hcs e1 fl1 Hf).
+  - apply bytes_eqb_eq. exact Hbody.
+  - apply forallb_forall. intros f Hf. rewrite (Hfd f Hf). reflexivity.
+Qed.
+
+(* a corpus case (corpus/C38: was-kf1-declared-unset) as a wire value *)
+Definition real_hop : list bytes :=
+  [ [67;111;110;110;101;99;116;105;111;110]; [75;101;101;112;45;65;108;105;118;101];
+    [80;114;111;120;121;45;65;117;116;104;101;110;116;105;99;97;116;101];
+    [80;114;111;120;121;45;65;117;116;104;111;114;105;122;97;116;105;111;110];
+    [80;114;111;120;121;45;67;111;110;110;101;99;116;105;111;110];
+    [84;114;97;110;115;102;101;114;45;69;110;99;111;100;105;110;103]; [85;112;103;114;97;100;101] ].
+Definition corpus_case : val :=
+  VL [VZ 0; VZ 4096; vLB real_hop; VL [VL [VZ 1; VB b_Trailer; VB b_Foo]; VL [VZ 4; VB b_hi; VZ 1]]].
+Lemma corpus_case_wf : wf_C38 corpus_case = true /\ prop_C38 corpus_case (run_C38 corpus_case) = true.
+Proof. vm_compute. split; reflexivity. Qed.
